@@ -32,6 +32,8 @@ fn one(out: &mut Out, fi: usize, data: &[u8], w: u32, h: u32, rect: (u32, u32, u
     let need = if rh == 0 || rw == 0 { 0 } else { pitch * (rh as usize - 1) + rw as usize * bpp };
     let buflen = offset + need + 5;
     let mut buf = vec![prefill; buflen];
+    let block = match PixelInfo::from(format) { PixelInfo::Block(b) if rw > 0 && rh > 0 => Some(b), _ => None };
+    if block.is_some() { dds::verif_hooks::start_block_trace(); }
     let res = {
         let view = ImageViewMut::new_with(&mut buf[offset..offset + need], pitch, Size::new(rw, rh), color);
         let Some(view) = view else { println!("IMPL-VIOLATION view refused: {name} {rw}x{rh} pitch {pitch}"); return; };
@@ -45,6 +47,23 @@ fn one(out: &mut Out, fi: usize, data: &[u8], w: u32, h: u32, rect: (u32, u32, u
             res
         }
     };
+    // tag 51: the call trace of the block code paths against the line-by-line model (coq/model/RectPath.v)
+    if let Some(b) = block {
+        let trace = dds::verif_hooks::take_block_trace();
+        if let (Some(Ok(())), Some(first)) = (&res, trace.first()) {
+            let (bbpp, conv) = (first[4], first[5]);
+            let targs: Vec<i128> = vec![if use_full { 0 } else { 1 }, b.size().0 as i128, b.size().1 as i128, b.bytes_per_block() as i128, conv as i128, bbpp as i128,
+                bpp as i128, pitch as i128, w as i128, h as i128, rx as i128, ry as i128, rw as i128, rh as i128];
+            let mut obs: Vec<i128> = Vec::new();
+            for e in &trace {
+                // a line event carries the decoder's native pixel size and conversion flag (passed to the model as arguments)
+                let e: &[usize] = if e[0] == 0 && e.len() == 6 && (e[4], e[5]) == (bbpp, conv) { &e[..4] } else { &e[..] };
+                obs.push(e.len() as i128); obs.extend(e.iter().map(|&v| v as i128));
+            }
+            out.count("trace_cases"); out.count(if conv == 1 { "trace_conv" } else { "trace_native" });
+            out.case(51, &targs, &obs);
+        } else if let Some(Ok(())) = &res { println!("IMPL-VIOLATION no block trace: {name} {w}x{h} rect {rect:?}"); }
+    }
     match res { Some(Ok(())) => {} other => { println!("IMPL-VIOLATION decode{} failed ({:?}): {name} {w}x{h} rect {rect:?} to {:?} {:?}", if use_full { "" } else { "_rect" }, other.map(|r| r.map_err(|e| e.to_string())), to, prec); return; } }
     let esize = prec.size() as i128;
     let mut args: Vec<i128> = vec![esize, channels_id(format.channels()) as i128, channels_id(to) as i128, w as i128, h as i128, rx as i128, ry as i128, rw as i128, rh as i128,
